@@ -158,3 +158,12 @@ async fn send_event(
 
 	Ok(())
 }
+
+#[cfg(watchexec_verif)]
+pub(crate) async fn verif_send_event(
+	errors: mpsc::Sender<RuntimeError>,
+	events: priority::Sender<Event, Priority>,
+	sig: Signal,
+) -> Result<(), CriticalError> {
+	send_event(errors, events, sig).await
+}
